@@ -16,7 +16,7 @@ import (
 const tokATTACHMENT = "@{exec_path}"
 
 var (
-	regAttachments = regexp.MustCompile(`(profile .* ` + tokATTACHMENT + `)`)
+	regAttachments = regexp.MustCompile(`(?m)^[\t ]*(profile .* ` + tokATTACHMENT + `)`)
 )
 
 type Userspace struct {
@@ -51,11 +51,12 @@ func (b Userspace) Apply(opt *Option, profile string) (string, error) {
 		return "", err
 	}
 
-	matches := regAttachments.FindAllString(profile, -1)
-	if len(matches) > 0 {
+	// Only the header of the profile itself: a child profile or a comment
+	// can name the variable too
+	if loc := regAttachments.FindStringIndex(profile); loc != nil {
 		att := f.GetDefaultProfile().GetAttachments()
-		strheader := strings.ReplaceAll(matches[0], tokATTACHMENT, att)
-		return regAttachments.ReplaceAllLiteralString(profile, strheader), nil
+		strheader := strings.ReplaceAll(profile[loc[0]:loc[1]], tokATTACHMENT, att)
+		return profile[:loc[0]] + strheader + profile[loc[1]:], nil
 	}
 	return profile, nil
 }
